@@ -325,9 +325,11 @@ fn run_ops(rng: &mut Rng, l: Limits, verb: &str, data: &[u8], drains: bool, out:
 fn piece_ops(rng: &mut Rng, l: Limits, verb: &str, data: &[u8], drains: bool, out: &mut Vec<String>) {
     let cuts = cut_points(rng, data, l);
     let mut prev = 0;
-    let fixed_method = if rng.chance(1, 4) { Some(*rng.pick(&METHODS)) } else { None };
+    // the production encoder is also fed through its `ZeroCopySink` impl (S = append_borrow, T = append_copy)
+    let methods: &[&str] = if verb == "enc" && l.prod { &["b", "c", "a", "r", "S", "T", "S", "T"] } else { &METHODS };
+    let fixed_method = if rng.chance(1, 4) { Some(*rng.pick(methods)) } else { None };
     for c in cuts.iter().copied().chain(std::iter::once(data.len())) {
-        let m = fixed_method.unwrap_or_else(|| *rng.pick(&METHODS));
+        let m = fixed_method.unwrap_or_else(|| *rng.pick(methods));
         out.push(format!("{} {} {}", verb, m, to_hex(&data[prev..c])));
         prev = c;
         if rng.chance(1, 40) {
@@ -421,6 +423,30 @@ pub fn enc_case(rng: &mut Rng, _idx: u64, thorough: bool) -> Vec<String> {
     let mut ops = Vec::new();
     if rng.below(1000) < (if thorough { 20 } else { 4 }) {
         return enc_boundary_random(rng, thorough);
+    }
+    if rng.chance(1, 6) {
+        // `find_stuff_sequence` on its own: FE / FD runs, pairs at every position incl. the last two bytes
+        let n = match rng.below(4) {
+            0 => rng.range(0, 3),
+            1 => rng.range(3, 40),
+            2 => rng.range(60, 70),
+            _ => rng.range(0, 300),
+        } as usize;
+        let mut v: Vec<u8> = (0..n).map(|_| *rng.pick(&[0xFEu8, 0xFE, 0xFD, 0x00, 0xFF, 0x41])).collect();
+        if n >= 2 && rng.chance(1, 2) {
+            for b in v.iter_mut() {
+                if *b == 0xFD {
+                    *b = 0x42;
+                }
+            }
+            if rng.chance(2, 3) {
+                let r = rng.below(n as u64 - 1) as usize;
+                let at = (*rng.pick(&[0usize, n - 2, n / 2, r])).min(n - 2);
+                v[at] = 0xFE;
+                v[at + 1] = 0xFD;
+            }
+        }
+        ops.push(format!("find {}", to_hex(&v)));
     }
     if rng.below(100) < 6 {
         let data = prod_payload(rng, thorough);
@@ -567,7 +593,7 @@ fn boundary_run(ops: &mut Vec<String>, bnd: (&str, &str), a_fill: usize, size: u
 /// The grid boundary x size class x (method of A, method of B) x where the boundary falls in the
 /// current chunk x body / tail / third-piece kinds.  Quick tier: every boundary x 9 size classes with
 /// two method pairs each (B by `encode` and one rotating pair); thorough tier: 20 size classes up to
-/// 1 MiB + 1 with all 16 method pairs (4 for the sizes above 131073).  The remaining dimensions
+/// 1 MiB + 1 with all 36 method pairs (4 for the sizes above 131073).  The remaining dimensions
 /// rotate so that every value meets every boundary and every size class.
 pub fn enc_boundary_cases(thorough: bool) -> Vec<Vec<String>> {
     let mut cases = Vec::new();
@@ -577,12 +603,14 @@ pub fn enc_boundary_cases(thorough: bool) -> Vec<Vec<String>> {
     let a_fills = [0usize, 251, 250, 3, 249];
     for (bi, bnd) in BOUNDARIES.iter().enumerate() {
         for (si, size) in boundary_sizes(thorough).into_iter().enumerate() {
-            let npairs = if !thorough { 2 } else if size > 131073 { 4 } else { 16 };
+            // production encoder: six input methods (S / T = through `dyn ZeroCopySink`)
+            const EM: [&str; 6] = ["b", "c", "a", "r", "S", "T"];
+            let npairs = if !thorough { 2 } else if size > 131073 { 4 } else { 36 };
             let mut ops = Vec::new();
             for k in 0..npairs {
                 rot += 1;
-                let pair = if thorough && npairs == 16 { k } else if k == 0 { 4 * (rot % 4) } else { (rot * 5 + bi + si) % 16 };
-                let (ma, mb) = (METHODS[pair / 4], METHODS[pair % 4]);
+                let pair = if thorough && npairs == 36 { k } else if k == 0 { 6 * (rot % 6) } else { (rot * 5 + bi + si) % 36 };
+                let (ma, mb) = (EM[pair / 6], EM[pair % 6]);
                 let a_fill = a_fills[(rot + bi) % a_fills.len()];
                 let body_kind = if (rot / 3) % 4 == 3 { 1 + (rot / 12) % 2 } else { 0 };
                 let tail_kind = if (rot / 2) % 3 == 2 { 1 + (rot / 6) % 2 } else { 0 };
@@ -624,7 +652,8 @@ fn enc_boundary_random(rng: &mut Rng, thorough: bool) -> Vec<String> {
         3 => 64008 + 252 - rng.below(4) as usize,
         _ => rng.range(0, 600) as usize,
     };
-    let (ma, mb) = (*rng.pick(&METHODS), *rng.pick(&METHODS));
+    let em = ["b", "c", "a", "r", "S", "T"];
+    let (ma, mb) = (*rng.pick(&em), *rng.pick(&em));
     let body_kind = if rng.chance(1, 4) { rng.range(1, 2) as usize } else { 0 };
     let tail_kind = if rng.chance(1, 3) { rng.range(1, 2) as usize } else { 0 };
     let third = rng.below(if size > 131073 { 3 } else { 4 }) as usize;
